@@ -117,6 +117,29 @@ def protected(F):
     out |= digest_renderers(F)
     out |= atomic_publishers(F)
     out |= byte_decoders(F)
+    out |= set(lock_runners(F))
+    return out
+
+
+def lock_runners(F):
+    """{fn path: index of the argument that is run under the lock}: crate-local fns of the hub daemon that take an exclusive
+    file lock and call one of their parameters (`with_commit_lock(lockdir, f)`, or the same as a method of a context object)"""
+    key = (id(F), 'lockrun')
+    if key in _cache:
+        return _cache[key]
+    out = {}
+    for p, b in list(F.bodies.items()):
+        if '::{' in p or b.kind != 'fn' or not b.file.endswith('bin/copia/serve.rs'):
+            continue
+        locks = _calls(F, b, lambda c: c.endswith('::lock_exclusive') or c.endswith('::lock'))
+        if not locks:
+            continue
+        fl = flow_of(b)
+        for bi, t in _calls(F, b, lambda c: c in ('std::ops::FnOnce::call_once', 'std::ops::FnMut::call_mut', 'std::ops::Fn::call')):
+            for o in fl.origins(t['args'][0]):
+                if o.kind == 'param' and not o.path:
+                    out[p] = o.key - 1
+    _cache[key] = out
     return out
 
 
